@@ -154,8 +154,7 @@ CheckSeqProbe(r) ==
   \A k \in DOMAIN r.runs :
      LET x == r.runs[k] IN
      (k > 1 /\ (x.timeout \/ (\E m \in DOMAIN x.errs : x.errs[m] \/ x.panics[m]) \/ ~x.agree)) =>
-        Drift(r, "a second key generation on the same " \o r.scheme \o " instances does not complete on this tree (sequences of key generations are not demanded of this scheme): "
-                 \o x.errtxt \o " / " \o x.panictxt)
+        Drift(r, "a second key generation on the same " \o r.scheme \o " instances does not complete on this tree (sequences of key generations are not demanded of this scheme)")
 
 \* LARGE point sets.  Monitor: the real coefficients of S satisfy the laws that characterise interpolation at zero.
 CheckBLag(r) ==
